@@ -31,6 +31,12 @@ CHECKS = {
         note='well-typedness is by construction against hplverif/typesig.py; quantifiers range over primitive-element collections; sibling binders at different types are the listed known finding F12',
         ref='DESIGN.md section 4, C04',
     ),
+    'C05': dict(
+        technique='fault injection on generated well-typed predicates: one definite type clash injected at a typed position (from an independent signature table) or as a second use of a definitely typed reference; oracle: the parser raises TypeError',
+        level='bounded exploration: thousands of single-clash texts per run covering every position kind (operands of all operators, call arguments, range bounds, set elements, indices, quantifier domains and bodies, predicate roots) and same-reference clashes, through the predicate, condition, expression and property entry points',
+        note='a clash is only injected where it is definite by hplverif/typesig.py (literal, operator/call result, or a reference whose inferred type set is a single base type, spelled exactly as in the text)',
+        ref='DESIGN.md section 4, C05',
+    ),
     'C06': dict(
         technique='property-based round trip: parse generated text, str(), parse again with the entry point of that level; equality, hash and second-print oracle; run-wide injectivity map',
         level='bounded exploration: thousands of parser-produced ASTs per run over all node kinds, with time bounds from the whole double range in both units; every AST must print to text that parses to an equal, hash-equal AST that prints identically, and unequal ASTs must never share a printed form',
